@@ -1842,6 +1842,307 @@ class EffectsEngine:
 class RngSite:
     def __init__(self, kind, form, ok, why, node):
         self.kind, self.form, self.ok, self.why, self.node = kind, form, ok, why, node
+        self.arg = None          # seed sites: the seed expression
+        self.guarded = None      # seed sites: is the call executed only when the seed expression is not None?
+
+
+# ---- "expression is not None here": forward must-analysis on the statement CFG (E2) ---------------------------
+def _nn_key(e):
+    """Key of a name / attribute chain (the only expressions facts are kept about)."""
+    if isinstance(e, ast.Name):
+        return e.id
+    if isinstance(e, ast.Attribute):
+        b = _nn_key(e.value)
+        return None if b is None else b + "." + e.attr
+    return None
+
+
+def implied_not_none(test, truth):
+    """Keys that are certainly not None when `test` evaluates to `truth`."""
+    out = set()
+    if isinstance(test, ast.UnaryOp) and isinstance(test.op, ast.Not):
+        return implied_not_none(test.operand, not truth)
+    if isinstance(test, ast.BoolOp):
+        if isinstance(test.op, ast.And) and truth:
+            for v in test.values:
+                out |= implied_not_none(v, True)
+        elif isinstance(test.op, ast.Or) and not truth:
+            for v in test.values:
+                out |= implied_not_none(v, False)
+        return out
+    if isinstance(test, ast.Compare) and len(test.ops) == 1:
+        l, r, op = test.left, test.comparators[0], test.ops[0]
+        for a, b in ((l, r), (r, l)):
+            if _is_none(b) and _nn_key(a) is not None:
+                if isinstance(op, (ast.IsNot, ast.NotEq)) and truth:
+                    out.add(_nn_key(a))
+                if isinstance(op, (ast.Is, ast.Eq)) and not truth:
+                    out.add(_nn_key(a))
+        return out
+    if isinstance(test, ast.Call) and isinstance(test.func, ast.Name) and test.func.id == "isinstance" and test.args and truth:
+        k = _nn_key(test.args[0])
+        if k is not None and not any(_is_none(x) for x in ast.walk(test.args[1])) if len(test.args) > 1 else False:
+            out.add(k)
+        return out
+    if truth and _nn_key(test) is not None:
+        out.add(_nn_key(test))          # a truthy value is not None
+    if isinstance(test, ast.NamedExpr):
+        return implied_not_none(test.value, truth)
+    return out
+
+
+def _nn_close(facts):
+    """Close a fact set under the recorded equalities ("=", a, b)."""
+    facts = set(facts)
+    changed = True
+    while changed:
+        changed = False
+        for f in list(facts):
+            if isinstance(f, tuple):
+                _, a, b = f
+                if a in facts and b not in facts:
+                    facts.add(b)
+                    changed = True
+                if b in facts and a not in facts:
+                    facts.add(a)
+                    changed = True
+    return facts
+
+
+def _nn_kill(facts, key):
+    def hit(k):
+        return k == key or k.startswith(key + ".")
+    return {f for f in facts if not (hit(f) if isinstance(f, str) else (hit(f[1]) or hit(f[2])))}
+
+
+def _nn_transfer(stmt, facts):
+    """Effect of executing a simple statement on the fact set."""
+    if isinstance(stmt, (ast.Assign, ast.AnnAssign, ast.AugAssign)):
+        tgts = stmt.targets if isinstance(stmt, ast.Assign) else [stmt.target]
+        flat = []
+        for t in tgts:
+            flat += list(t.elts) if isinstance(t, (ast.Tuple, ast.List)) else [t]
+        facts = set(facts)
+        val = getattr(stmt, "value", None)
+        vkey = _nn_key(val) if val is not None else None
+        v_nn = val is not None and ((vkey is not None and vkey in _nn_close(facts)) or
+                                    (isinstance(val, ast.Constant) and val.value is not None))
+        for t in flat:
+            k = _nn_key(t.value if isinstance(t, ast.Starred) else t)
+            if k is not None:
+                facts = _nn_kill(facts, k)
+        if isinstance(stmt, ast.Assign) and len(tgts) == 1 and len(flat) == 1:
+            k = _nn_key(flat[0])
+            if k is not None:
+                if v_nn:
+                    facts.add(k)
+                if vkey is not None and vkey != k:
+                    facts.add(("=", k, vkey))
+        return facts
+    if isinstance(stmt, (ast.For, ast.AsyncFor)):
+        facts = set(facts)
+        for n in ast.walk(stmt.target):
+            if isinstance(n, ast.Name):
+                facts = _nn_kill(facts, n.id)
+        return facts
+    if isinstance(stmt, (ast.With, ast.AsyncWith)):
+        facts = set(facts)
+        for it in stmt.items:
+            if it.optional_vars is not None:
+                for n in ast.walk(it.optional_vars):
+                    if isinstance(n, ast.Name):
+                        facts = _nn_kill(facts, n.id)
+        return facts
+    if isinstance(stmt, ast.Delete):
+        facts = set(facts)
+        for t in stmt.targets:
+            k = _nn_key(t)
+            if k is not None:
+                facts = _nn_kill(facts, k)
+        return facts
+    if isinstance(stmt, ast.Expr) or isinstance(stmt, ast.Return):
+        # walrus targets inside the expression
+        facts = set(facts)
+        for n in ast.walk(stmt):
+            if isinstance(n, ast.NamedExpr) and isinstance(n.target, ast.Name):
+                facts = _nn_kill(facts, n.target.id)
+        return facts
+    return facts
+
+
+class NotNone:
+    """Which name / attribute expressions are certainly not None at each statement of a function."""
+
+    def __init__(self, fi):
+        from .cfg import cfg_of, ENTRY
+        self.fi = fi
+        self.g = g = cfg_of(fi)
+        IN = {nid: None for nid in g.nodes}        # None = not reached yet (top)
+        IN[ENTRY] = frozenset()
+        work = [ENTRY]
+        rounds = 0
+        while work:
+            rounds += 1
+            if rounds > 20000:
+                raise AnalysisError(f"{fi.where}: not-None analysis does not converge")
+            nid = work.pop()
+            node = g.nodes[nid]
+            base = set(IN[nid])
+            if node.stmt is not None and node.kind not in ("if", "loop", "assert", "try", "except"):
+                base = _nn_transfer(node.stmt, base)
+            elif node.kind == "loop":
+                base = _nn_transfer(node.stmt, base) if isinstance(node.stmt, (ast.For, ast.AsyncFor)) else base
+            elif node.kind == "except" and node.stmt is not None and getattr(node.stmt, "name", None):
+                base = _nn_kill(base, node.stmt.name)
+            for (t, lab) in g.successors(nid):
+                out = set(base)
+                test = None
+                if node.kind in ("if", "assert") or (node.kind == "loop" and isinstance(node.stmt, ast.While)):
+                    test = node.stmt.test
+                if test is not None and lab in ("true", "false"):
+                    # walrus inside the test re-binds before the branch
+                    for n in ast.walk(test):
+                        if isinstance(n, ast.NamedExpr) and isinstance(n.target, ast.Name):
+                            out = _nn_kill(out, n.target.id)
+                    out |= implied_not_none(test, lab == "true")
+                out = frozenset(out)
+                new = out if IN[t] is None else (IN[t] & out)
+                if IN[t] is None or new != IN[t]:
+                    IN[t] = new
+                    work.append(t)
+        self.IN = IN
+
+    def _roots(self, node):
+        s = node.stmt
+        k = node.kind
+        if s is None:
+            return []
+        if k in ("if", "assert"):
+            return [s.test] + ([s.msg] if k == "assert" and s.msg is not None else [])
+        if k == "loop":
+            return [s.test] if isinstance(s, ast.While) else [s.iter]
+        if k == "with":
+            return [it.context_expr for it in s.items]
+        if k in ("try", "except"):
+            return [s.type] if k == "except" and s.type is not None else []
+        if isinstance(s, (ast.FunctionDef, ast.AsyncFunctionDef, ast.ClassDef)):
+            return list(s.decorator_list)
+        return [s]
+
+    def facts_at(self, target):
+        """Fact set holding when the expression node `target` (somewhere in this function) is evaluated."""
+        for node in self.g.stmt_nodes():
+            for root in self._roots(node):
+                if any(x is target for x in ast.walk(root)):
+                    base = self.IN.get(node.id)
+                    if base is None:
+                        return None          # unreachable code
+                    return _nn_close(self._ctx(root, target, set(base)))
+        return set()
+
+    def _ctx(self, e, target, facts):
+        if e is target:
+            return facts
+        if isinstance(e, ast.BoolOp):
+            cur = set(facts)
+            for v in e.values:
+                if any(x is target for x in ast.walk(v)):
+                    return self._ctx(v, target, cur)
+                cur |= implied_not_none(v, isinstance(e.op, ast.And))   # later operands run only if earlier were true / false
+            return facts
+        if isinstance(e, ast.IfExp):
+            if any(x is target for x in ast.walk(e.test)):
+                return self._ctx(e.test, target, facts)
+            if any(x is target for x in ast.walk(e.body)):
+                return self._ctx(e.body, target, facts | implied_not_none(e.test, True))
+            return self._ctx(e.orelse, target, facts | implied_not_none(e.test, False))
+        if isinstance(e, (ast.ListComp, ast.SetComp, ast.GeneratorExp, ast.DictComp)):
+            cur = set(facts)
+            for gnr in e.generators:
+                if any(x is target for x in ast.walk(gnr.iter)):
+                    return self._ctx(gnr.iter, target, cur)
+                for c in gnr.ifs:
+                    if any(x is target for x in ast.walk(c)):
+                        return self._ctx(c, target, cur)
+                    cur |= implied_not_none(c, True)
+            for ch in ([e.key, e.value] if isinstance(e, ast.DictComp) else [e.elt]):
+                if any(x is target for x in ast.walk(ch)):
+                    return self._ctx(ch, target, cur)
+            return facts
+        for ch in ast.iter_child_nodes(e):
+            if any(x is target for x in ast.walk(ch)):
+                return self._ctx(ch, target, facts)
+        return facts
+
+    def holds(self, call, expr):
+        """Is `expr` (a name / attribute chain) certainly not None whenever `call` is evaluated?"""
+        k = _nn_key(expr)
+        if k is None:
+            return False
+        f = self.facts_at(call)
+        return f is None or k in f
+
+
+def call_sites_of(engine, universe, target):
+    """[(caller FuncInfo, Call node, bound?)] of the calls in `universe` that resolve to repository function `target`."""
+    out = []
+    for g in universe:
+        rs = engine.resolver(g)
+        for n in _own_nodes(g.node):
+            if not isinstance(n, ast.Call):
+                continue
+            try:
+                q = rs.qualify(n.func)
+            except AnalysisError:
+                continue
+            if q[0] == "func" and q[1] is target:
+                out.append((g, n, False))
+            elif (q[0] == "method" and isinstance(q[1], ast.Name) and q[1].id == rs.self_name()
+                  and rs.own_class() is not None and rs.own_class().methods.get(q[2]) is target):
+                out.append((g, n, True))
+    return out
+
+
+def _in_constructor(fi):
+    f = fi
+    while f is not None:
+        if f.cls is not None and f.name == "__init__":
+            return True
+        f = f.parent
+    return False
+
+
+def resolve_seed_helper(engine, universe, fi, site):
+    """np.random.seed(x) in a function that is not a constructor: acceptable only in a helper whose every call site
+    lies in a constructor and which runs the call only for a seed that is not None (guard in the helper, or at
+    every call site).  -> (ok, why)"""
+    arg = site.arg
+    sites = call_sites_of(engine, universe, fi)
+    if not sites:
+        return False, "np.random.seed outside a constructor (function is not called from any constructor)"
+    outside = [g for g, _n, _b in sites if not _in_constructor(g)]
+    if outside:
+        return False, f"np.random.seed outside a constructor (helper is also called from {outside[0].qualname})"
+    if site.guarded:
+        return True, "helper called only from constructors; seeds only under `<seed> is not None`"
+    if not isinstance(arg, ast.Name) or arg.id not in fi.params():
+        return False, "np.random.seed in a helper, seed expression is not guarded and is not the helper's parameter"
+    a = fi.node.args
+    pos = [x.arg for x in a.posonlyargs + a.args]
+    for g, n, bound in sites:
+        ex = None
+        for kw in n.keywords:
+            if kw.arg == arg.id:
+                ex = kw.value
+        if ex is None and arg.id in pos:
+            i = pos.index(arg.id) - (1 if bound else 0)
+            plain = [x for x in n.args if not isinstance(x, ast.Starred)]
+            if 0 <= i < len(plain) and len(plain) == len(n.args):
+                ex = plain[i]
+        if ex is None or isinstance(ex, ast.Constant) or not NotNone(g).holds(n, ex):
+            return False, (f"np.random.seed in a helper without a guard, and the call in {g.qualname} may pass None "
+                           f"(not under `<seed> is not None`)")
+    return True, "helper called only from constructors, each call under `<seed> is not None`"
 
 
 def _own_nodes(fnode):
@@ -1923,6 +2224,7 @@ def rng_sites(program, fi: FuncInfo):
                 if isinstance(t, ast.Name):
                     gen_names.setdefault(t.id, []).append(n.value)
     params = set(fi.params())
+    nonlocal_nn = [None]
 
     def enclosing_tests(node):
         out = []
@@ -1957,16 +2259,20 @@ def rng_sites(program, fi: FuncInfo):
                 if tail in RNG_GLOBAL_DRAWS:
                     sites.append(RngSite("draw", f"np.random.{tail}", True, "global legacy generator", n))
                 elif tail == "seed":
-                    ok, why = False, "np.random.seed outside a constructor"
-                    if fi.name == "__init__" and fi.cls is not None and n.args:
-                        seed_src = ast.dump(n.args[0])
-                        for tst in enclosing_tests(n):
-                            if (isinstance(tst, ast.Compare) and len(tst.ops) == 1 and isinstance(tst.ops[0], ast.IsNot)
-                                    and _is_none(tst.comparators[0]) and ast.dump(tst.left) == seed_src):
-                                ok, why = True, "constructor, under `seed is not None`"
-                        if not ok:
-                            why = "np.random.seed in a constructor but not under `<seed> is not None`"
-                    sites.append(RngSite("seed", "np.random.seed", ok, why, n))
+                    arg = n.args[0] if n.args else (n.keywords[0].value if n.keywords else None)
+                    guarded = False
+                    if arg is not None and not isinstance(arg, ast.Constant):
+                        nonlocal_nn[0] = nonlocal_nn[0] or NotNone(fi)
+                        guarded = nonlocal_nn[0].holds(n, arg)
+                    if fi.name == "__init__" and fi.cls is not None:
+                        ok = guarded
+                        why = ("constructor, executed only when the seed is not None" if ok else
+                               "np.random.seed in a constructor but not under `<seed> is not None`")
+                    else:
+                        ok, why = None, "np.random.seed outside a constructor"     # decided through the call sites
+                    st_ = RngSite("seed", "np.random.seed", ok, why, n)
+                    st_.arg, st_.guarded = arg, guarded
+                    sites.append(st_)
                 elif tail == "default_rng":
                     if not n.args and not n.keywords:
                         sites.append(RngSite("ctor", "np.random.default_rng() called without a seed", False,
